@@ -36,12 +36,16 @@ PROPS = {
                 not_covered='generated messages and the field-type -> codec table of pilota-build (sint32/sint64 selection) are not covered in this revision'),
     'C07': dict(verus=['skip', 'compact_skip'], kani=[], assumptions=A_COMMON,
                 not_covered='the contract proved for the recursive skipper is: depth 0 => Err, termination by depth, reported count == bytes consumed, exact size for every fixed-width type and for binary, Void/Stop rejected; element-by-element exactness of nested containers against a value grammar is not proved; async skipper and the iterative unchecked skipper are not under contract'),
-    'C09': dict(verus=THRIFT_UNITS, kani=['a3_varint_decode_total', 'rwext_read_i16', 'rwext_read_i32', 'rwext_read_i64', 'rwext_read_u64'], assumptions=A_COMMON,
-                not_covered=NOT_GEN + '; async readers; read_string/read_to_string (vec! allocation) not yet under contract'),
+    'C09': dict(verus=THRIFT_UNITS + ['skip', 'async_binary', 'async_binary_le', 'async_compact'], kani=['a3_varint_decode_total', 'rwext_read_i16', 'rwext_read_i32', 'rwext_read_i64', 'rwext_read_u64'], assumptions=A_COMMON,
+                not_covered=NOT_GEN + '; sync read_string/read_to_string (vec! allocation) not yet under contract; async skipper not under contract'),
     'C10': dict(verus=['prost'], kani=['pb_varint_decode_total', 'pb_varint_roundtrip'], assumptions=A_COMMON[:1] + ['decode_varint_slice (unsafe, unrolled) enters Verus through its documented safety contract; Kani pb_varint_decode_total proves it on the real code', 'derive(Clone) of DecodeContext replaced by its field-wise expansion; core::cmp::min redirected to a usize wrapper'],
                 not_covered='decode_varint, decode_varint_slow, decode_key, check_wire_type, WireType::try_from, DecodeContext::{enter_recursion,limit_reached} are verified total (no panic, bounded consumption); skip_field (`break <value>` unsupported by Verus), merge_loop (FnMut closure), bytes/string/message/group/map merge and generated merge_field are not decided'),
     'C11': dict(verus=[], kani=K_C11_W + K_C11_R, assumptions=A_COMMON[:1] + ['the documented preconditions of the unchecked codec (window of the reported size; complete well-formed input) are the harness assumptions'],
                 not_covered='LinkedBytes variant and zero-copy insertion, unchecked read_field_begin/list/set/map_begin, read_bytes/read_faststr/get_bytes and the iterative skipper are not under a harness'),
+    'C12': dict(verus=['async_binary', 'async_binary_le', 'async_compact'], kani=[], assumptions=A_COMMON + [
+                    'A7 tokio AsyncReadExt::{read_u8,read_i8,read_i16[_le],read_i32[_le],read_i64[_le],read_f64[_le],read_exact} deliver the next bytes of the stream in order regardless of chunking or Pending wake-ups, or fail when the stream ends first (vf/units/_asyncrd.vu); the delivery-schedule quantifier of C12 is discharged by this assumption, not by pilota-side proof',
+                    'D8: async fn -> fn, .await dropped: each awaited read is an atomic call'],
+                not_covered=NOT_GEN + '; the async skipper (TAsyncInputProtocol::skip_till_depth) is not under contract yet'),
     'C18': dict(verus=[], kani=[h for h in K_PB if h not in ('pb_varint_roundtrip', 'pb_varint_decode_total')], assumptions=A_COMMON[:1],
                 not_covered='only "singular scalars take the last occurrence" (merge into an arbitrary pre-existing value) is decided; repeated/map/oneof/embedded/unknown-field semantics are not'),
 }
